@@ -72,6 +72,14 @@ def _main():
             expected[sid] = sorted(k for k, v in out.items() if v.startswith("VIOLATION"))
             print(f"{sid:8s} {flag}  " + " | ".join(f"{k}: {v}" for k, v in out.items())[:230])
     print(f"caught {caught}/{len(seeds)} (props: {','.join(props)})")
+    if "--update-expected" in sys.argv:
+        if len(props) < 20:
+            sys.exit("--update-expected needs all properties")
+        path = os.path.join(HERE, "seeded", "EXPECTED.json")
+        cur = json.load(open(path))
+        cur.update(expected)
+        json.dump(cur, open(path, "w"), indent=1, sort_keys=True)
+        print(f"updated {len(expected)} entries of seeded/EXPECTED.json")
     if "--write-expected" in sys.argv:
         if args or len(props) < 20:
             sys.exit("--write-expected needs all seeds and all properties")
